@@ -65,6 +65,8 @@ def generate(ctx):
     rng = ctx.rng
     for atoms in ([100010] if ctx.quick() else [99990, 100010, 200010]):
         yield {"kind": "bignum", "atoms": atoms, "seed": rng.randrange(2 ** 31)}
+    for _ in range(ctx.n(6, 60)):
+        yield {"kind": "bignum", "atoms": rng.randint(40, 160), "seed": rng.randrange(2 ** 31), "degenerate": True}
     n_main = ctx.n(150, 4000)
     for i in range(n_main):
         small = rng.random() < 0.35
@@ -381,6 +383,21 @@ def _eval_bignum(ctx, case):
     desc["mols"] = [{"sp": sp, "resids": [(1 + m * nres + r) % 100000 for r in range(nres)],
                      "xyz": [[round(p[0] + 0.001 * (m % 900), 3), round(p[1] + 0.001 * (m // 900), 3), p[2]] for p in tmpl]}
                     for m in range(nmol)]
+    if case.get("degenerate"):
+        # ONE input molecule is degenerate: an atom with >= 2 bonds coincides (to the three decimals of the file) with
+        # its second-lowest bonded atom, so its frame is undefined and its mapped atoms come out as NaN.  It is still
+        # an input molecule of a mapped species: it is written (NaN fields and all), in place, with its numbers —
+        # "exactly one mapped molecule for each input molecule" (seed C05-9: non-finite molecules silently skipped)
+        nbs = {}
+        for a_, b_ in desc["species"][sp]["cg"]["bonds"]:
+            nbs.setdefault(a_, set()).add(b_)
+            nbs.setdefault(b_, set()).add(a_)
+        anchors = [a_ for a_ in sorted(nbs) if len(nbs[a_]) >= 2]
+        if anchors:
+            a_ = anchors[0]
+            m_ = desc["mols"][min(2, nmol - 1)]
+            m_["xyz"][sorted(nbs[a_])[1]] = list(m_["xyz"][a_])
+            ctx.count("bignum:one-degenerate-input-molecule")
     workdir = os.path.join(ctx.scratch, f"c05-big-{ctx.evaluations}")
     try:
         c = {"desc": desc, "mode": "normal", "scale": 0.5, "align": False, "npseed": 1, "ends": [sp]}
@@ -392,7 +409,7 @@ def _eval_bignum(ctx, case):
             err = e
         ctx.case({"bignum": case["atoms"], "seed": case["seed"]}, nontrivial=True,
                  sample={"kind": "bignum", "molecules": nmol, "atoms_out": nmol * n_aa})
-        ctx.count("bignum:output-atoms>100000")
+        ctx.count("bignum:output-atoms>100000" if case["atoms"] > 100000 else "bignum:small")
         ctx.oracle_ok(3)
         if err is not None:
             ctx.oracle_fail(f"extrapolate:raises-{type(err).__name__}:bignum", case, {"error": repr(err)})
@@ -401,10 +418,15 @@ def _eval_bignum(ctx, case):
         with open(out) as f:
             f.readline()
             count_line = f.readline()
-            for _ in range(nmol * n_aa):
-                l = f.readline()
-                resids.append(int(l[0:5]))
-                nums.append(int(l[15:20]))
+            body = f.readlines()
+        # the file must have one atom line per target atom of every input molecule, then the box line
+        if len(body) != nmol * n_aa + 1:
+            ctx.oracle_fail("extrapolate:count:bignum", case,
+                            {"atom_lines_in_file": len(body) - 1, "count_line": count_line.strip(), "want": nmol * n_aa})
+            return
+        for l in body[:-1]:
+            resids.append(int(l[0:5]))
+            nums.append(int(l[15:20]))
         if int(count_line) != nmol * n_aa:
             ctx.oracle_fail("extrapolate:count:bignum", case, {"count": count_line.strip(), "want": nmol * n_aa})
         want = [(k + 1) % 100000 for k in range(nmol * n_aa)]
